@@ -7,9 +7,12 @@ from sim.universe import GEN_PREFIX
 FUNCTION_KINDS = ('load', 'dumps', 'dump', 'dumps_json', 'dump_json')
 
 
-def make_function(ns, kind, root_t=None, order=None):
+def make_function(ns, kind, root_t=None, order=None, only=None):
     import yatiml
     classes = ns.registered(order)
+    if only is not None:
+        # a function over a subset of the spec's classes
+        classes = [c for c in classes if c.__name__ in only]
     if kind == 'load':
         if root_t is None:
             return yatiml.load_function()
